@@ -18,6 +18,7 @@ import os
 import re
 
 from mbt import engine
+from drivers import common as _common
 from drivers import gbnf
 from drivers.common import run_async
 
@@ -148,7 +149,7 @@ def replay(item):
                 f.write(want)
             _cur["schema"] = want
         try:
-            r = run_async(ValidateTool().execute(content=text, schema="GEN_G"))
+            r = run_async(_common.tool("validate").execute(content=text, schema="GEN_G"))
             errs = [e for e in (r.get("validation_errors") or []) if name in json.dumps(e)]
             rec["tool_ok"] = r.get("validation_status") == "VALIDATED" and not errs
             if not rec["tool_ok"] and not rec["err"]:
